@@ -249,13 +249,23 @@ def gen_nifti_spec(rng, k):
     nf = 1 if k % 2 == 0 else rng.choice([2, 3])
     vol = [rng.choice([2, 3]), rng.choice([3, 4]), rng.choice([2, 3])]
     lens = [rng.choice([20, 24, 30]) for _ in range(nf)]
-    nroi = rng.choice([0, 1, 1, 2, 3])      # 0: coords=None, 1: one array, >1: list of arrays
+    # ROI sizes 1,2,3,4 EXPLICITLY (a 3-voxel ROI is a 3x3 coords array) for single and multiple files and for
+    # ROI lists: k even/odd = single/multi file, k//2 cycles the size (period 4) and the ROI count (period 6)
+    nroi = [1, 1, 2, 1, 3, 0][(k // 2) % 6]      # 0: coords=None, 1: one array, >1: list of arrays
+    sizes = [[1, 2, 3, 4][(k // 2 + r) % 4] for r in range(max(nroi, 1))]
+    if nroi >= 2:
+        sizes[1] = 3
     coords = []
-    for _ in range(max(nroi, 1)):
-        kk = rng.randint(1, 5)
-        coords.append([[rng.randrange(vol[d]) for _ in range(kk)] for d in range(3)])
+    for kk in sizes:
+        while True:
+            c = [[rng.randrange(vol[d]) for _ in range(kk)] for d in range(3)]
+            if kk != 3 or c != [list(r) for r in zip(*c)]:      # a 3x3 coordinate matrix must not be symmetric
+                break
+        coords.append(c)
     tr = rng.choice([None, 2.0, 1.5, 0.5, 0.81327, 'T:2000000000000:ms', 'T:1500000000000:us', 2])
     opt = rng.choice(['plain', 'plain', 'plain', 'percent', 'zscore', 'average', 'filter-fourier', 'filter-boxcar', 'zscore+average'])
+    if 3 in sizes and nroi > 0 and 'filter' in opt:
+        opt = 'plain'        # the 3x3 case is always judged on its data
     if nroi == 0 and 'filter' in opt:
         opt = 'plain'        # the filters admit at most 2-d data (boxcar) — outside this property
     return dict(seed=rng.randrange(10**6), vol=vol, lens=lens, nroi=nroi, coords=coords, tr=tr, opt=opt,
@@ -381,6 +391,14 @@ def cases(rng, tier, seed):
             out.append(Case(axis_line(chain, a_in, spec), impl, '%s/%s' % (name, getter), cmp=cmp_axis,
                             meta={'op': 'output', 'name': name, 'getter': getter, 'kind': kind, 'spec': spec},
                             nontrivial=nontrivial(a_in)))
+    # --- the sampling rate handed to the algorithm layer, per generated Fs site
+    for j in range({'quick': 3, 'thorough': 12}[tier]):
+        for name, getter in FS_SITES:
+            unit = UNITS[(j + FS_SITES.index((name, getter))) % 3]
+            sp = dict(unit=unit, iv=(BAD_IV[unit] + GOOD_IV[unit])[j % 4], t0=T0S[j % len(T0S)], seed=rng.randrange(10**6))
+            out.append(fs_case(name, getter, sp))
+            if (name, getter) in OVERRIDABLE:
+                out.append(fs_case(name, getter, sp, user_fs=rng.choice([123.0, 7.5, 1000.0])))
     # --- concatenate_time_series
     for i in range(20 * mult):
         k = rng.randint(1, 4)
@@ -760,6 +778,315 @@ def spectral_experiments(spec):
     return fails
 
 
+
+# ------------------------------------------------------------------ histories on ONE analyzer object (sequence / retarget)
+ALL_ANALYZERS = ['SpectralAnalyzer', 'CoherenceAnalyzer', 'MTCoherenceAnalyzer', 'SparseCoherenceAnalyzer', 'SeedCoherenceAnalyzer',
+                 'CorrelationAnalyzer', 'SeedCorrelationAnalyzer', 'GrangerAnalyzer', 'SNRAnalyzer', 'HilbertAnalyzer',
+                 'MorletWaveletAnalyzer', 'NormalizationAnalyzer', 'FilterAnalyzer', 'EventRelatedAnalyzer']
+HAS_SET_INPUT = ['SpectralAnalyzer', 'CoherenceAnalyzer', 'MTCoherenceAnalyzer', 'SparseCoherenceAnalyzer', 'CorrelationAnalyzer',
+                 'GrangerAnalyzer', 'SNRAnalyzer', 'HilbertAnalyzer', 'MorletWaveletAnalyzer', 'NormalizationAnalyzer']
+
+
+def hist_input(spec, name, variant=0):
+    """input of the history experiments: 3 x 96 (1-d for the wavelet), strictly positive for the normaliser;
+    variant 1 = ANOTHER series (half the interval, another unit, other data, other start)"""
+    sp = dict(spec)
+    sp['shape'] = [96] if name == 'MorletWaveletAnalyzer' else [3, 96]
+    sp['pos'] = name == 'NormalizationAnalyzer'
+    T = mk_input(sp)
+    if variant == 0:
+        return T
+    iv0 = nt().TimeArray(np.int64(ps_of(T.sampling_interval) // 2), time_unit='ps')
+    iv0.convert_unit('us' if T.time_unit != 'us' else 'ms')
+    return nt().TimeSeries(np.asarray(T.data)[..., ::-1] * 0.5 + 3.0, sampling_interval=iv0, time_unit=iv0.time_unit, t0=iv0 * 7)
+
+
+def hist_analyzer(name, T, fs_new):
+    """one analyzer of class `name` on T; parameters given in Hz are fixed from the series under test (fs_new)"""
+    A = na()
+    m = {'this_method': 'welch', 'NFFT': 32, 'n_overlap': 16}
+    if name == 'CoherenceAnalyzer':
+        return A.CoherenceAnalyzer(T, method=dict(m))
+    if name == 'SparseCoherenceAnalyzer':
+        return A.SparseCoherenceAnalyzer(T, ij=[(0, 1), (1, 2)], method=dict(m))
+    if name == 'SeedCoherenceAnalyzer':
+        seed = nt().TimeSeries(np.asarray(T.data)[0], sampling_interval=T.sampling_interval, time_unit=T.time_unit, t0=T.t0)
+        return A.SeedCoherenceAnalyzer(seed, T, method=dict(m))
+    if name == 'SeedCorrelationAnalyzer':
+        seed = nt().TimeSeries(np.asarray(T.data)[0], sampling_interval=T.sampling_interval, time_unit=T.time_unit, t0=T.t0)
+        return A.SeedCorrelationAnalyzer(seed, T)
+    if name == 'GrangerAnalyzer':
+        return A.GrangerAnalyzer(T, order=2, n_freqs=32)
+    if name == 'MorletWaveletAnalyzer':
+        return A.MorletWaveletAnalyzer(T, freqs=[0.2 * fs_new, 0.3 * fs_new])
+    if name == 'FilterAnalyzer':
+        return A.FilterAnalyzer(T, lb=0.0537 * fs_new, ub=0.3071 * fs_new, filt_order=8)
+    if name == 'EventRelatedAnalyzer':
+        return A.EventRelatedAnalyzer(T, events_for(T, {}), 5, offset=1)
+    return getattr(A, name)(T)
+
+
+def output_names(an):
+    import inspect
+    from nitime import descriptors as desc
+    out = []
+    for k in dir(type(an)):
+        if k.startswith('_'):
+            continue
+        if isinstance(inspect.getattr_static(type(an), k), desc.OneTimeProperty):
+            out.append(k)
+    return sorted(out)
+
+
+def snap(v):
+    """deep, comparable snapshot of an analyzer result: list of (kind, payload)"""
+    import copy
+    if isinstance(v, nt().TimeSeries):
+        a = axis_of(v)
+        return [('axis', (a['unit'], a['t0'], a['dt'], a['n']))] + snap(np.asarray(v.data))
+    if isinstance(v, (tuple, list)):
+        out = []
+        for x in v:
+            out += snap(x)
+        return out
+    if isinstance(v, dict):
+        out = []
+        for k in sorted(v, key=repr):
+            out += [('key', repr(k))] + snap(v[k])
+        return out
+    try:
+        a = np.array(v, copy=True)
+        if a.dtype.kind not in 'biufc':
+            return [('obj', repr(v)[:200])]
+        return [('arr', a)]
+    except Exception:  # noqa
+        return [('obj', repr(v)[:200])]
+
+
+def same_snap(a, b, rtol=1e-9):
+    if len(a) != len(b):
+        return False
+    for (ka, va), (kb, vb) in zip(a, b):
+        if ka != kb:
+            return False
+        if ka == 'arr':
+            if va.dtype.kind == 'b' or vb.dtype.kind == 'b':
+                va, vb = va.astype(float), vb.astype(float)
+            if not close(va, vb, rtol):
+                return False
+        elif va != vb:
+            return False
+    return True
+
+
+def read(an, g):
+    """-> ('ok', value) or ('err', kind)"""
+    try:
+        return 'ok', getattr(an, g)
+    except Exception as e:  # noqa
+        return 'err', common.err_kind(e)
+
+
+def direct_array(name, g, T, Fs):
+    """direct algorithm call for array-valued outputs where one exists (None otherwise)"""
+    import nitime.algorithms as tsa
+    d = np.asarray(T.data)
+    if name == 'CorrelationAnalyzer' and g == 'xcorr':
+        k = d.shape[0]
+        return np.array([[np.correlate(d[min(i, j)], d[max(i, j)], mode='full') for j in range(k)] for i in range(k)])
+    if name == 'CorrelationAnalyzer' and g == 'xcorr_norm':
+        k, n = d.shape[0], d.shape[-1]
+        cc = np.corrcoef(d)
+        out = np.array([[np.correlate(d[min(i, j)], d[max(i, j)], mode='full') for j in range(k)] for i in range(k)])
+        for i in range(k):
+            for j in range(k):
+                out[i, j] = out[i, j] / out[i, j, n - 1] * cc[i, j]
+        return out
+    if name == 'CorrelationAnalyzer' and g == 'corrcoef':
+        return np.corrcoef(d)
+    if name == 'SpectralAnalyzer' and g == 'periodogram':
+        return tsa.periodogram(d, Fs=Fs)
+    if name == 'SpectralAnalyzer' and g == 'cpsd':
+        return tsa.get_spectra(d, method={'this_method': 'welch', 'Fs': Fs})
+    if name == 'CoherenceAnalyzer' and g == 'coherence':
+        return tsa.coherence(d, csd_method={'this_method': 'welch', 'NFFT': 32, 'n_overlap': 16, 'Fs': Fs})[1]
+    if name == 'CoherenceAnalyzer' and g == 'frequencies':
+        return tsa.coherence(d, csd_method={'this_method': 'welch', 'NFFT': 32, 'n_overlap': 16, 'Fs': Fs})[0]
+    return None
+
+
+def history_experiments(spec, name, pair_budget, rng):
+    """(1) fresh analyzer per output (reference; compared with the direct algorithm call where one exists);
+    (2) every ordered PAIR (a, b) read on the SAME object: b must equal the fresh b, the a handed out earlier must
+        not change, input.data must not change;
+    (3) for classes with set_input: an object built on ANOTHER series, all outputs read, then set_input(T) and ONE
+        output read first: must equal the fresh analyzer's on T."""
+    fails = []
+    T = hist_input(spec, name)
+    a_in = axis_of(T)
+    Fs = 10.0**12 / a_in['dt']
+    fs_new = float(T.sampling_rate)
+    raw0 = np.array(T.data, copy=True)
+    meta = {'op': 'history', 'spec': spec, 'name': name}
+
+    def fail(key, what):
+        fails.append(Failure(key, '%s [input unit=%s t0=%d ps interval=%d ps shape=%s]' % (what, a_in['unit'], a_in['t0'], a_in['dt'], list(raw0.shape)),
+                             {'meta': meta}))
+    names = output_names(hist_analyzer(name, T, fs_new))
+    fresh = {}
+    for g in names:
+        st, v = read(hist_analyzer(name, T, fs_new), g)
+        if st == 'ok':
+            fresh[g] = snap(v)
+            want = direct_array(name, g, T, Fs)
+            if want is not None and not same_snap([x for x in fresh[g] if x[0] != 'axis'], snap(want), 1e-8):
+                fail('%s/%s/value' % (name, g), '%s.%s (fresh analyzer) differs from the direct algorithm call with Fs=%r' % (name, g, Fs))
+    good = [g for g in names if g in fresh]
+    if not (np.asarray(T.data) == raw0).all():
+        fail('sequence/%s/fresh/input-mutated' % name, 'reading outputs of fresh %s analyzers changed input.data' % name)
+    # (2) ordered pairs
+    pairs = [(a, b) for a in good for b in good if a != b]
+    if len(pairs) > pair_budget:
+        rng.shuffle(pairs)
+        keep, seen_a, seen_b = [], set(), set()
+        for a, b in pairs:          # every output at least once first and once second, then fill up
+            if a not in seen_a or b not in seen_b:
+                keep.append((a, b)); seen_a.add(a); seen_b.add(b)
+        for pr in pairs:
+            if len(keep) >= pair_budget:
+                break
+            if pr not in keep:
+                keep.append(pr)
+        pairs = keep
+    for a, b in pairs:
+        an = hist_analyzer(name, T, fs_new)
+        sa, va = read(an, a)
+        if sa != 'ok':
+            continue
+        first = snap(va)
+        sb, vb = read(an, b)
+        if sb != 'ok':
+            fail('sequence/%s/%s-then-%s/raises' % (name, a, b), '%s: reading %s after %s raised %s' % (name, b, a, vb))
+            continue
+        if not same_snap(snap(vb), fresh[b]):
+            fail('sequence/%s/%s-then-%s/value' % (name, a, b), '%s: %s read after %s differs from %s of a fresh analyzer' % (name, b, a, b))
+        if not same_snap(snap(va), first):
+            fail('sequence/%s/%s-then-%s/earlier-result-changed' % (name, a, b),
+                 '%s: the %s result handed out earlier was modified by reading %s' % (name, a, b))
+        if not (np.asarray(T.data) == raw0).all():
+            fail('sequence/%s/%s-then-%s/input-mutated' % (name, a, b), '%s: input.data changed' % name)
+            T = hist_input(spec, name)
+    # (3) re-targeting
+    if name in HAS_SET_INPUT:
+        T0 = hist_input(spec, name, 1)
+        for g in good:
+            an = hist_analyzer(name, T0, fs_new)
+            for h in names:
+                read(an, h)
+            try:
+                an.set_input(T)
+            except Exception as e:  # noqa
+                fail('retarget/%s/set_input/raises' % name, '%s.set_input raised %r' % (name, e))
+                break
+            st, v = read(an, g)
+            if st != 'ok':
+                fail('retarget/%s/%s/raises' % (name, g), '%s: %s read first after set_input raised %s' % (name, g, v))
+            elif not same_snap(snap(v), fresh[g]):
+                fail('retarget/%s/%s/value' % (name, g), '%s: %s read first after set_input(new series) differs from a fresh analyzer on the new series '
+                     '(Fs = 10^12/interval_ps = %r Hz)' % (name, g, Fs))
+    return fails, len(pairs), len(good)
+
+
+
+# ------------------------------------------------------------------ Fs handed to the algorithm layer (argument snapshots by wrapping)
+FS_SITES = [('SpectralAnalyzer', 'psd'), ('SpectralAnalyzer', 'cpsd'), ('SpectralAnalyzer', 'periodogram'),
+            ('SpectralAnalyzer', 'spectrum_fourier'), ('SpectralAnalyzer', 'spectrum_multi_taper'),
+            ('CoherenceAnalyzer', 'spectrum'), ('CoherenceAnalyzer', 'frequencies'), ('SparseCoherenceAnalyzer', 'frequencies'),
+            ('SeedCoherenceAnalyzer', 'frequencies'), ('SNRAnalyzer', 'mt_signal_psd'), ('SNRAnalyzer', 'mt_noise_psd'),
+            ('FilterAnalyzer', 'filtered_fourier'), ('MorletWaveletAnalyzer', 'analytic')]
+OVERRIDABLE = [('CoherenceAnalyzer', 'spectrum'), ('CoherenceAnalyzer', 'frequencies'), ('SparseCoherenceAnalyzer', 'frequencies'),
+               ('SeedCoherenceAnalyzer', 'frequencies')]
+
+
+def capture_fs(name, getter, spec, user_fs=None):
+    """read one output with the algorithm-layer entry points wrapped; returns the list of sampling rates they were given"""
+    import nitime.algorithms as tsa
+    import nitime.utils as tsu
+    got = []
+
+    def wrap(mod, fname, how):
+        orig = getattr(mod, fname)
+
+        def w(*a, **k):
+            if how == 'kw':
+                if 'Fs' in k:
+                    got.append(float(k['Fs']))
+                elif 'sampling_rate' in k:
+                    got.append(float(k['sampling_rate']))
+            elif how == 'dict':
+                m = k.get('method') or k.get('csd_method') or (a[1] if len(a) > 1 and isinstance(a[1], dict) else None)
+                if isinstance(m, dict) and 'Fs' in m:
+                    got.append(float(m['Fs']))
+            elif how == 'arg0':
+                got.append(float(a[0]))
+            return orig(*a, **k)
+        setattr(mod, fname, w)
+        return (mod, fname, orig)
+    T = hist_input(spec, name)
+    fs_new = float(T.sampling_rate)
+    if user_fs is not None:
+        A = na()
+        m = {'this_method': 'welch', 'NFFT': 32, 'n_overlap': 16, 'Fs': user_fs}
+        if name == 'CoherenceAnalyzer':
+            an = A.CoherenceAnalyzer(T, method=m)
+        elif name == 'SparseCoherenceAnalyzer':
+            an = A.SparseCoherenceAnalyzer(T, ij=[(0, 1), (1, 2)], method=m)
+        else:
+            seed = nt().TimeSeries(np.asarray(T.data)[0], sampling_interval=T.sampling_interval, time_unit=T.time_unit, t0=T.t0)
+            an = A.SeedCoherenceAnalyzer(seed, T, method=m)
+    else:
+        an = hist_analyzer(name, T, fs_new)
+    saved = [wrap(tsa, 'periodogram', 'kw'), wrap(tsa, 'multi_taper_psd', 'kw'), wrap(tsa, 'get_spectra', 'dict'),
+             wrap(tsa, 'cache_fft', 'dict'), wrap(__import__('matplotlib.mlab').mlab, 'psd', 'kw'), wrap(tsu, 'get_freqs', 'arg0'),
+             wrap(tsa, 'wmorlet', 'kw')]
+    if name == 'MorletWaveletAnalyzer':
+        an.wavelet = tsa.wmorlet        # the analyzer bound the function at construction
+    try:
+        getattr(an, getter)
+    finally:
+        for mod, fname, orig in saved:
+            setattr(mod, fname, orig)
+    return got, axis_of(T)
+
+
+def fs_case(name, getter, spec, user_fs=None):
+    try:
+        got, a = capture_fs(name, getter, spec, user_fs)
+        impl = 'err nothing-captured' if not got else ('ok ' + f2x(got[0]) if all(g == got[0] for g in got) else 'err mixed')
+    except Exception as e:  # noqa
+        a = axis_of(hist_input(spec, name))
+        impl = 'err ' + common.err_kind(e)
+    line = 'C15 fsdeliver %s.%s. %s %d %s %s' % (name, getter, a['unit'], a['dt'], f2x(a['fs']), '-' if user_fs is None else f2x(user_fs))
+    return Case(line, impl, 'fs/%s/%s' % (name, getter) + ('/override' if user_fs is not None else ''),
+                meta={'op': 'fs', 'name': name, 'getter': getter, 'spec': spec, 'user': user_fs}, nontrivial=a['unit'] != 's')
+
+
+def judge_fs(c):
+    m = c.meta
+    try:
+        got, a = capture_fs(m['name'], m['getter'], m['spec'], m['user'])
+    except Exception as e:  # noqa
+        return [Failure('fs/%s/%s/raises' % (m['name'], m['getter']), 'raised %r' % e, {'meta': m}, case=c)]
+    want = m['user'] if m['user'] is not None else 10.0**12 / a['dt']
+    bad = [g for g in got if abs(g - want) > 1e-12 * abs(want)]
+    if bad or not got:
+        return [Failure('fs/%s/%s/value' % (m['name'], m['getter']),
+                        '%s.%s handed the algorithm layer Fs=%r; expected %s = %r Hz [unit=%s interval=%d ps]' % (
+                            m['name'], m['getter'], bad[:2] or 'nothing', 'the caller\'s method[Fs]' if m['user'] is not None else '10^12/interval_ps',
+                            want, a['unit'], a['dt']), {'meta': m}, case=c)]
+    return []
+
+
 def judge_concat(c):
     specs = c.meta['specs']
     TS = nt()
@@ -853,7 +1180,7 @@ def judge_voxels(c):
     return []
 
 
-JUDGES = {'output': judge_output, 'concat': judge_concat, 'nifti': judge_nifti, 'mk': judge_ctor, 'mkT': judge_ctor, 'rate': judge_ctor,
+JUDGES = {'fs': judge_fs, 'output': judge_output, 'concat': judge_concat, 'nifti': judge_nifti, 'mk': judge_ctor, 'mkT': judge_ctor, 'rate': judge_ctor,
           'voxels': judge_voxels}
 
 
@@ -872,9 +1199,20 @@ def oracle(rng, tier, seed, focus, cases=None):
         spec = dict(unit=unit, iv=iv, t0=T0S[i % len(T0S)], shape=[3, 96] if i % 4 else [96], seed=rng.randrange(10**6))
         fails += spectral_experiments(spec)
         k += 1
+    npairs = nout = 0
+    hist_specs = [dict(unit=UNITS[(seed + j) % 3], iv=GOOD_IV[UNITS[(seed + j) % 3]][j % 3], t0=T0S[j % len(T0S)], seed=rng.randrange(10**6))
+                  for j in range({'quick': 1, 'thorough': 4}[tier])]
+    for j, hs in enumerate(hist_specs):
+        for name in ALL_ANALYZERS:
+            hs2 = dict(hs, unit=UNITS[(seed + j + ALL_ANALYZERS.index(name)) % 3])
+            hs2['iv'] = GOOD_IV[hs2['unit']][(j + ALL_ANALYZERS.index(name)) % 3]
+            fl, a, b = history_experiments(hs2, name, {'quick': 150, 'thorough': 10**6}[tier], rng)
+            fails += fl
+            npairs += a
+            nout += b
     for f in fails:
         f.replay['key'] = f.key
-    return fails, {'judged_cases': n, 'spectral_inputs': k, 'failed': len(fails), 'focus': len(focus)}
+    return fails, {'judged_cases': n, 'spectral_inputs': k, 'history_pairs': npairs, 'history_outputs': nout, 'failed': len(fails), 'focus': len(focus)}
 
 
 def replay(d):
@@ -883,6 +1221,8 @@ def replay(d):
     c = Case('', '', '', meta=m)
     if op == 'spectral':
         fs = spectral_experiments(m['spec'])
+    elif op == 'history':
+        fs = history_experiments(m['spec'], m['name'], 10**6, common.make_rng(PID, 0, 'replay'))[0]
     else:
         fs = JUDGES[op](c)
     want = d.get('key')
